@@ -99,6 +99,13 @@ def execIffStart (noAct : Name → Bool) (nTasks : Nat) (tr : List Ev) : Bool :=
 
 /-! #### the report matches what happened (ground truth: the oracle of the case and the action marks) -/
 
+/-- every task `t` depends on after the events `pre`, including what calc tasks delivered although their execution
+    failed (`Run.deliverF` / `RunMon.resAt`): task_dep, setup, calc_dep (transitively through deliveries) and the
+    task_deps / target owners of file_deps delivered -/
+def depsAtF (inp : RunInput) (nTasks : Nat) (pre : List Ev) (t : Name) : List Name :=
+  inp.taskDep t ++ inp.setup t ++ calcsAtF inp pre nTasks (inp.calcDep t) ++
+    ((calcsAtF inp pre nTasks (inp.calcDep t)).flatMap fun c => (resAt inp pre c).tasks ++ (resAt inp pre c).files)
+
 def failedBefore (post : List Ev) (d : Name) : Bool :=
   post.any fun e => match e with | .failure n _ => n = d | _ => false
 def ignoredBefore (post : List Ev) (d : Name) : Bool :=
@@ -114,9 +121,9 @@ def truthOK (inp : RunInput) (nTasks : Nat) (e : Ev) (post : List Ev) : Bool :=
   | .failure n .depErr =>
     if post.any (Ev.isStartOf n) then inp.outcome n == .saveErr
     else inp.statusOf n == .error || !inp.argsOk n
-  | .failure n .unmet => (depsAt inp nTasks post.reverse n).any (failedBefore post)
+  | .failure n .unmet => (depsAtF inp nTasks post.reverse n).any (failedBefore post)
   | .skipUtd n => effStatus inp n == .utd && !inp.ignored n
-  | .skipIgn n => inp.ignored n || (depsAt inp nTasks post.reverse n).any (ignoredBefore post)
+  | .skipIgn n => inp.ignored n || (depsAtF inp nTasks post.reverse n).any (ignoredBefore post)
   | _ => true
 
 def truthOrd (inp : RunInput) (nTasks : Nat) : List Ev → Bool
@@ -160,6 +167,7 @@ inductive Tok
   | failAgain (n : Name) (k : FailKind)   -- the failure header repeated by complete_run
   | errSec (n : Name)                     -- "<name> <stderr>:"
   | outSec (n : Name)                     -- "<name> <stdout>:"
+  | aborted                               -- "Execution aborted." (complete_run, after a runtime_error)
 deriving DecidableEq, Repr, Inhabited
 
 /-- `ConsoleReporter` state: text written so far (oldest first) and `self.failures` -/
@@ -180,19 +188,51 @@ def conStep (k : Kind) (noAct : Name → Bool) (c : Con) : Ev → Con
     else c
   | _ => c
 
-/-- `ConsoleReporter.complete_run` (task verbosity 0, failure_verbosity 0): the captured output of every failed task
-    that was executed -/
-def conComplete (k : Kind) (executed : Name → Bool) (c : Con) : List Tok :=
+/-- `Stream.effective_verbosity`: `-v N` on the command line forces the global value, else the task's own
+    `verbosity` wins over the global one (DOIT_CONFIG / default) -/
+def effVerb (force : Bool) (glob : Nat) (taskV : Option Nat) : Nat :=
+  if force then glob else match taskV with
+    | some v => v
+    | none => glob
+
+/-- what `complete_run` depends on besides the callbacks: `--failure-verbosity`, the effective verbosity of each task
+    (`task.verbosity` after `overwrite_verbosity`), whether `runtime_error` was called -/
+structure RepOpts where
+  failVerb : Nat := 0
+  verb : Name → Nat := fun _ => 0
+  runtimeErr : Bool := false
+
+/-- `ConsoleReporter.complete_run`, one failed and executed task: `show_err = verbosity < 1 or failure_verbosity > 0`
+    (the failure header again and the captured stderr), `show_out = verbosity < 2 or failure_verbosity == 2` (the
+    captured stdout), a separator line if either -/
+def failSection (o : RepOpts) (p : Name × FailKind) : List Tok :=
+  (if o.verb p.1 < 1 ∨ o.failVerb > 0 ∨ o.verb p.1 < 2 ∨ o.failVerb = 2 then [.sep] else []) ++
+  (if o.verb p.1 < 1 ∨ o.failVerb > 0 then [.failAgain p.1 p.2, .errSec p.1] else []) ++
+  (if o.verb p.1 < 2 ∨ o.failVerb = 2 then [.outSec p.1] else [])
+
+/-- `ConsoleReporter.complete_run`: the captured output of every failed task that was executed, then the runtime
+    errors ("Execution aborted.") -/
+def conComplete (k : Kind) (o : RepOpts) (executed : Name → Bool) (c : Con) : List Tok :=
   if k = .console ∨ k = .executedOnly then
-    c.out ++ c.failures.flatMap fun p =>
-      if executed p.1 then [.sep, .failAgain p.1 p.2, .errSec p.1, .outSec p.1] else []
+    c.out ++ (c.failures.flatMap fun p => if executed p.1 then failSection o p else []) ++
+      (if o.runtimeErr then [.sep, .aborted] else [])
   else c.out
 
 /-- output of a console-family reporter for the callback stream `tr` (oldest first) -/
-def render (k : Kind) (noAct : Name → Bool) (tr : List Ev) : List Tok :=
+def render (k : Kind) (o : RepOpts) (noAct : Name → Bool) (tr : List Ev) : List Tok :=
   if tr.contains .complete then
-    conComplete k (fun n => tr.any (Ev.isStartOf n)) (tr.foldl (conStep k noAct) {})
+    conComplete k o (fun n => tr.any (Ev.isStartOf n)) (tr.foldl (conStep k noAct) {})
   else (tr.foldl (conStep k noAct) {}).out
+
+/-- with the harness' defaults (verbosity 0, failure_verbosity 0) every executed failed task gets the full section -/
+example (p : Name × FailKind) : failSection {} p = [.sep, .failAgain p.1 p.2, .errSec p.1, .outSec p.1] := by
+  simp [failSection]
+
+/-- a task at verbosity 2 whose output was already shown gets no section at failure_verbosity 0, both at 2 -/
+example : failSection { verb := fun _ => 2 } (0, .failed) = [] ∧
+    failSection { verb := fun _ => 2, failVerb := 2 } (0, .failed) = [.sep, .failAgain 0 .failed, .errSec 0, .outSec 0] ∧
+    failSection { verb := fun _ => 1 } (0, .failed) = [.sep, .outSec 0] := by
+  simp [failSection]
 
 /-! #### `JsonReporter` -/
 
